@@ -147,6 +147,7 @@ func Boot(t *testing.T, b *Boundary, o BootOpts, shared *Cluster) *Cluster {
 		if !ok {
 			t.Fatalf("resource manager is %T, not *cobalt.Manager", c.VerifRmgr())
 		}
+		b.SetContainerLayers("rmgr")
 		ps := mgr.GetPlugins() // shares its backing array with the manager's own slice
 		for i := range ps {
 			ps[i] = &PluginShim{Real: ps[i], B: b, Inst: o.Inst}
